@@ -408,6 +408,12 @@ pub trait Encoding: private::SealedContainer {
             let net =
                 Self::hrp_network(hrp).ok_or_else(|| ParseError::UnknownPrefix(hrp.to_string()))?;
 
+            // Reject non-canonical padding of the final 5-bit group (BIP 173: at most four
+            // bits, all zero), which `byte_iter` would otherwise silently discard, so that an
+            // accepted string always re-encodes to itself.
+            parsed.validate_segwit_padding().map_err(|_| {
+                ParseError::InvalidEncoding("non-canonical Bech32m padding".to_string())
+            })?;
             let data = parsed.byte_iter().collect::<Vec<_>>();
 
             Self::parse_internal(hrp, data).map(|value| (net, value))
